@@ -29,6 +29,7 @@ result; it means "the C loop is still running"):
 Everything else (`resolve_link`'s tail, the driver loop over
 `links_unresolved`) is shared and parameterised by the loop.
 -/
+import Sqfs.Generated.Consts
 namespace Sqfs.HardLink
 
 inductive Errno
@@ -250,16 +251,43 @@ def walk (t : T) : Nat → List Bytes → Lookup
 def lookup (t : T) (path : Bytes) : Lookup := walk t 0 (comps path)
 
 inductive AddErr
-  | EINVAL | ENOTDIR | EEXIST
+  | EINVAL | ENOTDIR | EEXIST | ENAMETOOLONG | EMLINK | ENOENT
   deriving DecidableEq, Repr
+
+/-- number of `parent` hops from node `i` up to the root: what `for (n = parent; n->parent != NULL; n = n->parent)
+++size;` of `mknode` counts.  Parents are created before their children, so `t.length` hops of fuel always suffice.
+(`a` is the node list as an array, only so that the native driver follows a parent pointer in constant time.) -/
+def depthGo (a : Array TNode) : Nat → Nat → Nat
+  | 0, _ => 0
+  | fuel + 1, i =>
+    if i = 0 then 0
+    else match a[i]? with
+      | none => 0
+      | some n => depthGo a fuel n.parent + 1
+
+def depth (t : T) (i : Nat) : Nat := depthGo t.toArray t.length i
+
+def counts (t : T) (i : Nat) : Nat :=
+  match t[i]? with
+  | some n => n.nlink
+  | none => 0
 
 def bump (t : T) (p : Nat) : T :=
   t.mapIdx (fun i n => if i = p then { n with nlink := n.nlink + 1 } else n)
 
-/-- `mknode` + `insert_sorted` + `parent->link_count++` (the `0xFFFFFFFF` guard on the parent is out of range here) -/
-def mknode (t : T) (p : Nat) (nm : Bytes) (k : Kind) (implicit : Bool) (target : Bytes) : T :=
-  bump t p ++ [{ parent := p, name := nm, kind := k, implicit := implicit, target := target,
-                 nlink := if k = .dir then 2 else 1 }]
+/--
+`mknode` + `insert_sorted` + `parent->link_count++` (fstree.c).  In the order of the C code:
+a directory that would be nested deeper than `SQFS_MAX_DIR_NESTING` is refused with `ENAMETOOLONG`
+(`size = 1 + depth(parent) > SQFS_MAX_DIR_NESTING`, /repo 9724762); [a hard link's target is canonicalised by the
+caller of this function, `EINVAL`]; a parent whose `link_count` is saturated refuses the child with `EMLINK`.
+-/
+def mknode (t : T) (p : Nat) (nm : Bytes) (k : Kind) (implicit : Bool) (target : Bytes) : Except AddErr T :=
+  if k = .dir ∧ depth t p + 1 > Sqfs.Consts.sqfsMaxDirNesting then .error .ENAMETOOLONG
+  else if counts t p = linkCountMax then .error .EMLINK
+  else
+    let n : TNode := { parent := p, name := nm, kind := k, implicit := implicit, target := target,
+                       nlink := if k = .dir then 2 else 1 }
+    .ok (bump t p ++ [n])
 
 /-- `fstree_get_node_by_path(fs, root, path, true, true)`: walk/create all but the last component -/
 def mkdirP : T → Nat → List Bytes → Except AddErr (T × Nat)
@@ -269,7 +297,10 @@ def mkdirP : T → Nat → List Bytes → Except AddErr (T × Nat)
     if !isDir t cur then .error .ENOTDIR
     else match childByName t cur c with
       | some n => mkdirP t n (d :: cs)
-      | none => mkdirP (mknode t cur c .dir true []) t.length (d :: cs)
+      | none =>
+        match mknode t cur c .dir true [] with
+        | .error e => .error e
+        | .ok t' => mkdirP t' t.length (d :: cs)
 
 /--
 `fstree_add_generic` for an entry of kind `k` (`dir` = `S_ISDIR(ent->mode)`,
@@ -295,8 +326,19 @@ def addGeneric (canon : Bytes → Option Bytes) (t : T) (name : Bytes) (k : Kind
         if k = .hlink then
           match canon target with
           | none => .error .EINVAL
-          | some tg => .ok (mknode t' parent nm .hlink false tg)
-        else .ok (mknode t' parent nm k false target)
+          | some tg => mknode t' parent nm .hlink false tg
+        else mknode t' parent nm k false target
+
+/--
+Harness-only set-up step (no C function): `node->link_count = v` on the node a path names, so that the
+`link_count == 0xFFFFFFFF` guards of `resolve_link` and `mknode` can be reached without four thousand million
+entries.  `ENOENT`/`ENOTDIR` when the path does not resolve.
+-/
+def setCount (t : T) (path : Bytes) (v : Nat) : Except AddErr T :=
+  match lookup t path with
+  | .fail .ENOENT => .error .ENOENT
+  | .fail .ENOTDIR => .error .ENOTDIR
+  | .found i => .ok (t.mapIdx (fun j n => if j = i then { n with nlink := v } else n))
 
 /-- what `resolve_link` sees of the tree -/
 def toGraph (t : T) : Graph :=
@@ -312,10 +354,6 @@ def linksGo : Nat → List TNode → List Nat → List Nat
 
 def links (t : T) : List Nat := linksGo 0 t []
 
-def counts (t : T) (i : Nat) : Nat :=
-  match t[i]? with
-  | some n => n.nlink
-  | none => 0
 
 /-- path of node `i` (names joined by '/', no leading slash), by walking `parent` at most `fuel` times -/
 def pathOf (t : T) : Nat → Nat → Bytes
